@@ -48,6 +48,11 @@ def _pv(p, key):
     return objs[key]
 
 
+def _kwargs(p):
+    """keyword arguments of dict(iterable, **kw): `"kw": [[["s", name], value], ...]` in call order"""
+    return {k[1]: mkval(v) for k, v in (p.get("kw") or [])}
+
+
 def canon_result(v):
     """canonical form of an aggregation result (sets / dicts in insertion order are order-free)"""
     if isinstance(v, (set, frozenset)):
@@ -243,7 +248,7 @@ ASYNC_TOOLS = {
     "list": lambda S, F, p: A.list(S[0]),
     "tuple": lambda S, F, p: A.tuple(S[0]),
     "set": lambda S, F, p: A.set(S[0]),
-    "dict": lambda S, F, p: A.dict(S[0]),
+    "dict": lambda S, F, p: A.dict(S[0], **_kwargs(p)),
     "sorted": lambda S, F, p: A.sorted(S[0], key=_fn(F, p, "key"), reverse=p.get("reverse", False)),
     "reduce": lambda S, F, p: (A.reduce(F[0], S[0], _pv(p, "initial")) if p.get("initial") is not None
                                else A.reduce(F[0], S[0])),
@@ -330,7 +335,7 @@ SYNC_TOOLS = {
     "list": lambda S, F, p: builtins.list(S[0]),
     "tuple": lambda S, F, p: builtins.tuple(S[0]),
     "set": lambda S, F, p: builtins.set(S[0]),
-    "dict": lambda S, F, p: builtins.dict(S[0]),
+    "dict": lambda S, F, p: builtins.dict(S[0], **_kwargs(p)),
     "sorted": lambda S, F, p: builtins.sorted(S[0], key=_fn(F, p, "key"), reverse=p.get("reverse", False)),
     "reduce": lambda S, F, p: (functools.reduce(F[0], S[0], _pv(p, "initial")) if p.get("initial") is not None
                                else functools.reduce(F[0], S[0])),
